@@ -33,8 +33,8 @@ const (
 	opValidate // CompoundPacket.Validate
 	opCNAME    // CompoundPacket.CNAME
 	opMarshalTo
-	opNack        // NackPairsFromSequenceNumbers / PacketList / Range from Seed
-	opBlockDSSRC  // DestinationSSRC of every XR block
+	opNack       // NackPairsFromSequenceNumbers / PacketList / Range from Seed
+	opBlockDSSRC // DestinationSSRC of every XR block
 	// harness operations
 	opPick    // A list, N index -> B pkt (no library call)
 	opSend    // A -> (Ch, Idx), N = delay in steps
@@ -51,44 +51,6 @@ var opNames = [...]string{"none", "Marshal", "MarshalSafe", "MarshalSize", "Dest
 
 func opVerdict(k uint8) bool { return k >= opMarshal && k <= opUnit }
 func opLibrary(k uint8) bool { return k >= opMarshal && k <= opBlockDSSRC }
-
-// Op is one operation of a task's program.
-type Op struct {
-	K    uint8  `json:"k"`
-	A    int    `json:"a"`
-	B    int    `json:"b"`
-	Ch   int    `json:"ch,omitempty"`
-	Idx  int    `json:"idx,omitempty"`
-	N    int    `json:"n,omitempty"`
-	Seed uint64 `json:"seed,omitempty"`
-}
-
-// ObjSpec describes an object that exists before the tasks start: slot i holds object i.
-type ObjSpec struct {
-	Slot   int    `json:"slot"`
-	Kind   int    `json:"kind"`
-	Seed   uint64 `json:"seed"`
-	List   bool   `json:"list,omitempty"`
-	Shared bool   `json:"shared,omitempty"`
-}
-
-// FaultPlan counts the transport faults planned by the generator (they fire when executed).
-type FaultPlan struct {
-	Drop, Dup, Delay, Reorder, Corrupt, Burst, BadValue int
-}
-
-// RunSpec is a complete description of one simulated run.
-type RunSpec struct {
-	Seed    uint64      `json:"seed"`
-	Cold    bool        `json:"cold"`
-	PreRef  bool        `json:"pre_ref"`
-	Mode    string      `json:"mode"`
-	Objects []ObjSpec   `json:"objects"`
-	NSlots  int         `json:"nslots"`
-	Tasks   [][]Op      `json:"tasks"`
-	Sched   SchedConfig `json:"sched"`
-	Plan    FaultPlan   `json:"plan"`
-}
 
 type inboxEntry struct {
 	idx   int
@@ -610,4 +572,3 @@ func genSpec(seed uint64, cold bool, opOnly bool, tier string) *RunSpec {
 	s.Sched = genSchedConfig(r, n, est, opOnly, tier)
 	return s
 }
-
